@@ -42,6 +42,14 @@ ASSUMPTIONS = [
     "for objects first seen in the snapshot by a listener registered before the bootstrap, circuit_extend calls are not judged",
     "several notifications owed for one event (e.g. circuit_new + circuit_launched) are compared as a multiset",
     "listeners are added/removed between deliveries, not inside callbacks",
+    "a listener may raise from its callback (after the double recorded the call): every other registered listener is "
+    "still owed exactly that notification, and the waits still complete",
+    "a requester may return a pending Deferred from a callback on the Deferred it was handed, or cancel it: that "
+    "wait itself is then not judged (cancel), the waits of all other requesters are",
+    "when Tor answers a close command with an error while the object lives (552 for a CLOSESTREAM reason above 255, "
+    "a generic 551 scripted for CLOSECIRCUIT) the wait may fail at once or stay open until the object is gone; it "
+    "must not succeed earlier, must complete once the object is gone, and such failed requests are not compared "
+    "with the others for 'share the outcome'",
     "the CLOSED Tor sends after a FAILED for the same stream is a reported transition: every state-wide stream "
     "listener (also one added after the FAILED) is owed exactly one stream_closed with the flags, and nothing else "
     "(no stream_new: no NEW was reported); listeners that were registered only on the forgotten Stream object, or "
@@ -79,6 +87,8 @@ FLOORS = {
               "listeners_added_after_object": 700, "listeners_removed": 200, "repeat_groups_compared": 100,
               "histories_with_all_positions": 3,
               "closed_after_failed_events": 100, "first_seen_in_mid_life_events": 100,
+              "listener_exceptions_raised": 40, "close_requests_to_be_refused": 60, "waits_meddled_pending": 130,
+              "waits_meddled_cancel": 70, "close_ack_late_then_event": 100,
               "reach:txtorcon.circuit:Circuit.close": 450, "reach:txtorcon.stream:Stream.close": 450,
               "reach:txtorcon.circuit:Circuit.when_built": 250, "reach:txtorcon.util:SingleObserver.fire": 2100,
               "reach:txtorcon.stream:Stream._notify": 2100},
@@ -96,60 +106,89 @@ KW_METHODS = ("circuit_closed", "circuit_failed", "stream_detach", "stream_close
 # ---------------------------------------------------------------------------
 # listener doubles
 
-def make_listeners(log):
+KIND_OF = {"CircuitListener": "c", "StreamListener": "s"}
+
+
+def make_listeners(log, raises):
     from txtorcon.interface import ICircuitListener, IStreamListener
 
     @implementer(ICircuitListener)
     class CircuitListener(object):
         def __init__(self, idx):
             self.idx = idx
+            self.raising = 0          # raise from the next n callbacks (after recording them)
+
+        def _maybe_raise(self):
+            if self.raising > 0:
+                self.raising -= 1
+                raises.append((KIND_OF["CircuitListener"], self.idx))
+                raise RuntimeError("listener double %d raises on purpose" % self.idx)
 
         def __repr__(self):
             return "<CL%d>" % self.idx
 
         def circuit_new(self, circuit):
             log.append(("c", self.idx, "circuit_new", circuit, None, None))
+            self._maybe_raise()
 
         def circuit_launched(self, circuit):
             log.append(("c", self.idx, "circuit_launched", circuit, None, None))
+            self._maybe_raise()
 
         def circuit_extend(self, circuit, router):
             log.append(("c", self.idx, "circuit_extend", circuit, router, None))
+            self._maybe_raise()
 
         def circuit_built(self, circuit):
             log.append(("c", self.idx, "circuit_built", circuit, None, None))
+            self._maybe_raise()
 
         def circuit_closed(self, circuit, **kw):
             log.append(("c", self.idx, "circuit_closed", circuit, None, kw))
+            self._maybe_raise()
 
         def circuit_failed(self, circuit, **kw):
             log.append(("c", self.idx, "circuit_failed", circuit, None, kw))
+            self._maybe_raise()
 
     @implementer(IStreamListener)
     class StreamListener(object):
         def __init__(self, idx):
             self.idx = idx
+            self.raising = 0          # raise from the next n callbacks (after recording them)
+
+        def _maybe_raise(self):
+            if self.raising > 0:
+                self.raising -= 1
+                raises.append((KIND_OF["StreamListener"], self.idx))
+                raise RuntimeError("listener double %d raises on purpose" % self.idx)
 
         def __repr__(self):
             return "<SL%d>" % self.idx
 
         def stream_new(self, stream):
             log.append(("s", self.idx, "stream_new", stream, None, None))
+            self._maybe_raise()
 
         def stream_succeeded(self, stream):
             log.append(("s", self.idx, "stream_succeeded", stream, None, None))
+            self._maybe_raise()
 
         def stream_attach(self, stream, circuit):
             log.append(("s", self.idx, "stream_attach", stream, circuit, None))
+            self._maybe_raise()
 
         def stream_detach(self, stream, **kw):
             log.append(("s", self.idx, "stream_detach", stream, None, kw))
+            self._maybe_raise()
 
         def stream_closed(self, stream, **kw):
             log.append(("s", self.idx, "stream_closed", stream, None, kw))
+            self._maybe_raise()
 
         def stream_failed(self, stream, **kw):
             log.append(("s", self.idx, "stream_failed", stream, None, kw))
+            self._maybe_raise()
 
     return ([CircuitListener(i) for i in range(N_LISTENERS)],
             [StreamListener(i) for i in range(N_LISTENERS)])
@@ -158,7 +197,8 @@ def make_listeners(log):
 # ---------------------------------------------------------------------------
 
 class Wait(object):
-    __slots__ = ("kind", "uid", "okind", "outcome", "pos", "requested", "nth", "order", "reported", "oid")
+    __slots__ = ("kind", "uid", "okind", "outcome", "pos", "requested", "nth", "order", "reported", "oid",
+                 "meddle", "refused")
 
     def __init__(self, kind, okind, uid, oid, outcome, pos, requested):
         self.kind = kind            # when_built when_closed circuit.close stream.close state.close_circuit state.close_stream
@@ -171,6 +211,8 @@ class Wait(object):
         self.nth = 1
         self.order = None
         self.reported = set()
+        self.meddle = None          # what the requester did with its own Deferred: "pending" | "cancel"
+        self.refused = False        # Tor was made to answer this request's command with an error
 
 
 class Engine(object):
@@ -187,6 +229,8 @@ class Engine(object):
         self.reg = {"c": {}, "s": {}}          # kind -> uid -> {listener idx: scope}
         self.removed = {"c": {}, "s": {}}      # kind -> uid -> set(listener idx)
         self.dead_reg = {"c": {}, "s": {}}     # kind -> uid -> registrations at the moment the object went
+        self.raises = []                       # (kind, listener) each time a double raised, per delivery
+        self.raise_uids = set()                # objects during whose notification a listener raised
         self.policies = {}
         self.timers = []
         self.collected = []
@@ -222,7 +266,10 @@ class Engine(object):
         m = (self.sim.circuits if kind == "circuit" else self.sim.streams)[oid]
         self.close_log.setdefault((kind[0], m.uid), []).append("cmd:" + pol["order"])
         if pol["order"] == "ack-first":
-            self.timers.append([pol["hold"] + 1, "pending"])
+            if pol.get("ack_hold"):
+                self.timers.append([pol["ack_hold"] + 1, "ack"])
+                self.count("close_ack_late_then_event")
+            self.timers.append([pol.get("ack_hold", 0) + pol["hold"] + 1, "pending"])
             self.count("close_ack_before_event")
         elif pol["order"] == "event-first":
             self.timers.append([pol["hold"] + 1, "ack"])
@@ -259,7 +306,7 @@ class Engine(object):
             self.tor.subscribed = {"CIRC", "STREAM"}
             self.ses = None
         else:
-            self.clisteners, self.slisteners = make_listeners(self.log)
+            self.clisteners, self.slisteners = make_listeners(self.log, self.raises)
 
             def before(state):
                 for i in sorted(self.globals["c"]):
@@ -375,6 +422,11 @@ class Engine(object):
                 else:
                     self.state.add_stream_listener(self.slisteners[l])
             return
+        if k == "raise":
+            self.count("listeners_armed_to_raise")
+            if not self.dry:
+                (self.clisteners if op["k"] == "c" else self.slisteners)[op["l"]].raising = int(op.get("n", 1))
+            return
         okind, uid = op["k"], op["uid"]
         m, live = self.model_obj(okind, uid)
         obj = self.objmap.get((okind, uid)) if not self.dry else None
@@ -412,7 +464,7 @@ class Engine(object):
                 return
             requested = self.moment(okind, m, live)
             d = getattr(obj, k)()
-            self.add_wait(k, okind, uid, m.id, d, requested)
+            self.meddle(self.add_wait(k, okind, uid, m.id, d, requested), d, op.get("meddle"))
             return
         if k in ("cclose", "sclose"):
             table = self.sim.circuits if okind == "c" else self.sim.streams
@@ -423,11 +475,16 @@ class Engine(object):
             if not live and via == "state":
                 self.count("ops_skipped_no_object")
                 return
-            pol = {"order": op.get("order", "together"), "as": op.get("as", "CLOSED"), "hold": int(op.get("hold", 0))}
-            will_act = live and not m.marked and not (op.get("if_unused") and okind == "c" and self.sim.streams_on(m.id))
+            pol = {"order": op.get("order", "together"), "as": op.get("as", "CLOSED"), "hold": int(op.get("hold", 0)),
+                   "ack_hold": int(op.get("ack_hold", 0))}
+            refuse = bool(op.get("refuse")) and live
+            will_act = live and not refuse and not m.marked and \
+                not (op.get("if_unused") and okind == "c" and self.sim.streams_on(m.id))
             if will_act:
                 self.policies[("circuit" if okind == "c" else "stream", m.id)] = pol
             if self.dry:
+                if refuse:
+                    return              # Tor refuses the command: nothing happens in the model
                 line = "%d%s" % (m.id, " IfUnused" if op.get("if_unused") else "") if okind == "c" else "%d 1" % m.id
                 self.dry_queue.append((self.sim.cmd_closecircuit if okind == "c" else self.sim.cmd_closestream, line))
                 self.dry_drain()
@@ -437,6 +494,18 @@ class Engine(object):
             name = ("circuit.close" if okind == "c" else "stream.close") if via == "object" else \
                    ("state.close_circuit" if okind == "c" else "state.close_stream")
             kw = {"IfUnused": True} if (op.get("if_unused") and okind == "c") else {}
+            scripted = None
+            if refuse and okind == "s":
+                kw["reason"] = 300      # Tor parses the reason as one byte: 552 Unrecognized reason
+            elif refuse:
+                # no argument makes Tor refuse CLOSECIRCUIT for a circuit it has; what it can answer any
+                # command with is the generic "551 Internal error" (4xx replies are outside C01's
+                # "well-formed replies" and are not used)
+                words = ["CLOSECIRCUIT", str(m.id)]
+                scripted = (lambda line, w=words: line.split()[:2] == w,
+                            (551, [("end", "Internal error")]), True)
+                self.tor.scripted.append(scripted)
+                self.count("closecircuit_refusals_scripted")
             if via == "object":
                 d = obj.close(**kw)
             elif okind == "c":
@@ -445,11 +514,30 @@ class Engine(object):
                 d = self.state.close_stream(obj, **kw)
             w = self.add_wait(name, okind, uid, m.id, d, requested)
             w.order = pol["order"] if will_act else None
+            w.refused = refuse
+            self.meddle(w, d, op.get("meddle"))
             self.count("close_requests")
-            self.close_log.setdefault((okind, uid), []).append("req")
+            if refuse:
+                self.count("close_requests_to_be_refused")
+            self.close_log.setdefault((okind, uid), []).append("req" + ("(refused)" if refuse else ""))
             self.pump("close")
+            if scripted is not None and scripted in self.tor.scripted and not self.sim.held_acks:
+                self.tor.scripted.remove(scripted)      # no command was sent for this request
             return
         raise ValueError("unknown op %r" % (op,))
+
+    def meddle(self, w, d, how):
+        """what a requester may do with the Deferred it was handed: return a pending Deferred from a
+        callback, or cancel it.  None of it may touch the other requesters' waits."""
+        if not how:
+            return
+        from twisted.internet import defer
+        w.meddle = how
+        self.count("waits_meddled_" + how)
+        if how == "pending":
+            d.addCallback(lambda _: defer.Deferred())
+        elif how == "cancel":
+            d.cancel()
 
     def dry_drain(self):
         """dry run: the client has one command in flight; queued ones follow when the ack comes"""
@@ -546,7 +634,12 @@ class Engine(object):
                     self.objmap[("s", m.uid)] = o
                     self.rev[id(o)] = ("s", m.uid)
         calls, self.log[:] = list(self.log), []
+        if self.raises:
+            self.count("listener_exceptions_raised", len(self.raises))
+            for ev in evs:
+                self.raise_uids.add(("c" if ev.kind == "CIRC" else "s", ev.uid))
         self.judge_calls(evs, expected, calls, unspecified, snapshot_uids, label)
+        del self.raises[:]
         for ev in evs:
             if ev.gone:
                 k = "c" if ev.kind == "CIRC" else "s"
@@ -637,6 +730,8 @@ class Engine(object):
                 clause = "notification-unexpected"
             else:
                 clause = "notification-duplicate"
+            if self.raises:
+                scope += ",a-listener-raised"
             self.V(clause, "%s,on=%s,listener=%s" % (method, evname, scope),
                    {"listener": l, "method": method, "object": [okind, uid], "argument": extra,
                     "owed": w, "observed": g, "events": texts, "delivery": label})
@@ -645,6 +740,23 @@ class Engine(object):
     def wait_class(self, w):
         """structural class of a wait: what was requested, when (relative to the life of its
         object) and - for close requests - which other close requests surround it"""
+        return self._wait_class(w) + self._wait_circumstances(w)
+
+    def _wait_circumstances(self, w):
+        out = ""
+        same = [x for x in self.waits if x.kind == w.kind and x.uid == w.uid and x is not w]
+        if w.refused:
+            out += ",command-refused"
+        elif any(x.refused for x in same):
+            out += ",other-request-refused"
+        med = sorted({x.meddle for x in same if x.meddle})
+        if med:
+            out += ",other-requester-" + "+".join("returned-pending-deferred" if x == "pending" else "cancelled" for x in med)
+        if (w.okind, w.uid) in self.raise_uids:
+            out += ",a-listener-raised"
+        return out
+
+    def _wait_class(self, w):
         if w.kind not in ("circuit.close", "stream.close"):
             return "%s,requested=%s" % (w.kind, w.requested)
         same = [x for x in self.waits if x.kind == w.kind and x.uid == w.uid]
@@ -670,7 +782,7 @@ class Engine(object):
     def judge_waits_safety(self, label):
         for w in self.waits:
             o = w.outcome
-            if not o.fired:
+            if not o.fired or w.meddle == "cancel":
                 continue
             m, live = self.facts(w)
             if o.fired > 1 and "twice" not in w.reported:
@@ -689,7 +801,13 @@ class Engine(object):
                     self.V("when-built-failed-wrongly", self.wait_class(w) + (",was-built" if m.ever_built else ",still-building"),
                            {"circuit": w.oid, "status": m.status, "error": str(o.value), "delivery": label})
             elif w.kind in ("when_closed", "circuit.close", "stream.close"):
-                if not gone:
+                if not gone and not o.ok and getattr(o.value, "code", None) is not None:
+                    # Tor answered this request's command with an error while the object lives:
+                    # failing at once is as good as waiting for the object to go
+                    if "refusal" not in w.reported:
+                        w.reported.add("refusal")
+                        self.count("close_waits_failed_on_refusal")
+                elif not gone:
                     w.reported.add("early")
                     order = w.order or "none"
                     trace = self.close_log.get((w.okind, w.uid), [])
@@ -708,6 +826,9 @@ class Engine(object):
             o = w.outcome
             m, live = self.facts(w)
             gone = not live
+            if w.meddle == "cancel":
+                self.count("waits_not_judged_cancelled_by_requester")
+                continue
             self.count("wait_outcomes_judged")
             if self.rec is not None:
                 self.rec.seen("wait_results", "%s@%s -> %s" % (
@@ -737,16 +858,18 @@ class Engine(object):
                 continue
             self.count("repeat_groups_compared")
             raced = [w for w in ws if not w.outcome.ok and w.requested.startswith("live")
-                     and getattr(w.outcome.value, "code", None) == 552]
+                     and getattr(w.outcome.value, "code", None) is not None]
             if raced:
-                # the command reached Tor after Tor had dropped the object by itself
+                # Tor answered this request's own command with an error: it reached Tor after Tor had
+                # dropped the object by itself (552), or Tor refused it
                 self.count("close_requests_raced_with_tor", len(raced))
                 ws = [w for w in ws if w not in raced]
             oks = {bool(w.outcome.ok) for w in ws}
             if len(oks) > 1:
                 bad = [w for w in ws if not w.outcome.ok]
                 self.V("repeated-requests-differ",
-                       "%s,failed-request=%s" % (kind, bad[0].requested.replace("-never-built", "")),
+                       "%s,failed-request=%s%s" % (kind, bad[0].requested.replace("-never-built", ""),
+                                                   self._wait_circumstances(bad[0])),
                        {"object": [ws[0].okind, ws[0].oid],
                         "outcomes": [[w.requested, str(w.outcome.describe())[:120]] for w in ws]})
         for (okind, uid), tr in self.close_log.items():
@@ -761,6 +884,20 @@ ORDERS = [("together", 0), ("event-first", 0), ("event-first", 1), ("event-first
           ("ack-first", 0), ("ack-first", 1), ("ack-first", 3)]
 
 
+def close_options(rnd, op):
+    """the rarer ingredients of a close request: acknowledgement held back (and the event later
+    still), a command Tor refuses, a requester that meddles with the Deferred it was handed"""
+    r = rnd.random()
+    if op.get("order") == "ack-first" and r < 0.35:
+        op["ack_hold"] = rnd.choice([1, 2, 3])
+    r = rnd.random()
+    if r < 0.08:
+        op["refuse"] = True
+    elif r < 0.22 and op.get("via") == "object":
+        op["meddle"] = rnd.choice(["pending", "pending", "cancel"])
+    return op
+
+
 def random_op(rnd, eng):
     """one operation that makes sense in the model state of the (dry) engine, or None"""
     sim = eng.sim
@@ -769,6 +906,8 @@ def random_op(rnd, eng):
     dead_c = list(getattr(sim, "dead_circuits", {}).values())[-3:]
     dead_s = list(getattr(sim, "dead_streams", {}).values())[-3:]
     r = rnd.random()
+    if r < 0.035:
+        return {"op": "raise", "k": rnd.choice("cs"), "l": rnd.randrange(N_LISTENERS), "n": rnd.choice([1, 1, 2, 3])}
     if r < 0.16:
         return {"op": "gl+", "k": rnd.choice("cs"), "l": rnd.randrange(N_LISTENERS)}
     if r < 0.30:
@@ -787,7 +926,10 @@ def random_op(rnd, eng):
         pool = live_c * 3 + dead_c
         if not pool:
             return None
-        return {"op": rnd.choice(["when_built", "when_built", "when_closed"]), "k": "c", "uid": rnd.choice(pool).uid}
+        op = {"op": rnd.choice(["when_built", "when_built", "when_closed"]), "k": "c", "uid": rnd.choice(pool).uid}
+        if rnd.random() < 0.1:
+            op["meddle"] = rnd.choice(["pending", "cancel"])
+        return op
     order, hold = rnd.choice(ORDERS)
     if r < 0.80:
         pool = live_c * 4 + dead_c
@@ -800,13 +942,13 @@ def random_op(rnd, eng):
             op["if_unused"] = True
         if rnd.random() < 0.5:
             op["by_object"] = True
-        return op
+        return close_options(rnd, op)
     pool = live_s * 4 + dead_s
     if not pool:
         return None
     m = rnd.choice(pool)
-    return {"op": "sclose", "k": "s", "uid": m.uid, "via": "object" if rnd.random() < 0.8 else "state",
-            "order": order, "hold": hold, "as": rnd.choice(["CLOSED", "CLOSED", "FAILED"])}
+    return close_options(rnd, {"op": "sclose", "k": "s", "uid": m.uid, "via": "object" if rnd.random() < 0.8 else "state",
+                               "order": order, "hold": hold, "as": rnd.choice(["CLOSED", "CLOSED", "FAILED"])})
 
 
 def base_case(rnd, tier):
@@ -878,6 +1020,9 @@ def gen_case(rnd, tier="quick"):
                 op = dict(last_close)                 # the same request again ("also twice")
                 if rnd.random() < 0.5:
                     op["order"], op["hold"] = rnd.choice(ORDERS)
+                for k in ("ack_hold", "refuse", "meddle"):
+                    op.pop(k, None)
+                close_options(rnd, op)
                 if rnd.random() < 0.6:
                     last_close = None
             else:
@@ -909,6 +1054,12 @@ OP_TEMPLATES = [
     [{"op": "cclose", "via": "object", "order": "ack-first", "hold": 1}, {"op": "cclose", "via": "object", "order": "together", "hold": 0}],
     [{"op": "cclose", "via": "object", "order": "event-first", "hold": 2}, {"op": "cclose", "via": "object", "order": "together", "hold": 0}],
     [{"op": "when_closed"}, {"op": "cclose", "via": "state", "order": "ack-first", "hold": 0}],
+    [{"op": "cclose", "via": "object", "order": "ack-first", "hold": 1, "ack_hold": 2},
+     {"op": "cclose", "via": "object", "order": "together", "hold": 0, "meddle": "pending"}],
+    [{"op": "cclose", "via": "object", "order": "ack-first", "hold": 1, "ack_hold": 2, "meddle": "cancel"},
+     {"op": "cclose", "via": "object", "order": "together", "hold": 0}],
+    [{"op": "cclose", "via": "object", "refuse": True}, {"op": "cclose", "via": "object", "order": "ack-first", "hold": 1}],
+    [{"op": "raise", "l": 0, "n": 2}, {"op": "gl+", "l": 1}],
     [{"op": "gl+", "l": 0}], [{"op": "ol+", "l": 1}], [{"op": "gl+", "l": 0}, {"op": "ol-", "l": 0}],
     [{"op": "ol+", "l": 2}, {"op": "ol-", "l": 2}],
 ]
@@ -917,6 +1068,13 @@ S_TEMPLATES = [
     [{"op": "sclose", "via": "object", "order": "event-first", "hold": 1, "as": "FAILED"}],
     [{"op": "sclose", "via": "object", "order": "ack-first", "hold": 1}, {"op": "sclose", "via": "object", "order": "together", "hold": 0}],
     [{"op": "sclose", "via": "state", "order": "event-first", "hold": 1}],
+    [{"op": "sclose", "via": "object", "refuse": True}, {"op": "sclose", "via": "object", "order": "ack-first", "hold": 1}],
+    [{"op": "sclose", "via": "object", "refuse": True}],
+    [{"op": "sclose", "via": "object", "order": "ack-first", "hold": 1, "ack_hold": 1, "meddle": "pending"},
+     {"op": "sclose", "via": "object", "order": "together", "hold": 0}],
+    [{"op": "sclose", "via": "object", "order": "ack-first", "hold": 2, "meddle": "cancel"},
+     {"op": "sclose", "via": "object", "order": "together", "hold": 0}],
+    [{"op": "raise", "l": 0, "n": 2}, {"op": "gl+", "l": 1}],
     [{"op": "gl+", "l": 0}], [{"op": "ol+", "l": 1}], [{"op": "gl+", "l": 0}, {"op": "ol-", "l": 0}],
 ]
 
